@@ -7,6 +7,6 @@ git -C /repo worktree add -q "$wt" HEAD || exit 2
 trap 'git -C /repo worktree remove --force "$wt"' EXIT
 mkdir -p "$wt/$pkg"; cp "$dir"/*_test.go "$wt/$pkg/"
 race=""; [ -n "$DEMO_RACE" ] && race="-race"
-echo "without: $(cd "$wt" && go test $race -vet=off -count=1 ./$pkg/ 2>&1 | grep "^ok\|^FAIL" | head -1 | cut -c1-100)"
+echo "without: $(cd "$wt" && go test $race -vet=off -count=1 ./$pkg/ 2>&1 | grep -a "^ok\|^FAIL" | head -1 | cut -c1-100)"
 git -C "$wt" apply "$dir/patch.diff" || { echo "patch does not apply"; exit 2; }
-echo "with:    $(cd "$wt" && go test $race -vet=off -count=1 ./$pkg/ 2>&1 | grep "^ok\|^FAIL\|^--- FAIL" | head -2 | tr '\n' ' ' | cut -c1-200)"
+echo "with:    $(cd "$wt" && go test $race -vet=off -count=1 ./$pkg/ 2>&1 | grep -a "^ok\|^FAIL\|^--- FAIL" | head -2 | tr '\n' ' ' | cut -c1-200)"
